@@ -11,7 +11,8 @@ RULE = ("unit cases: one real SegmentFetcher (k 1..4) driven event by event (add
         "that is not outstanding, add after stop, a bad segment number); non-trivial = at least one share failed or went overdue; "
         "finder cases: one real ShareFinder over <= 8 servers with answers, errors and overdue timers in random order; "
         "grid cases: N<=6 shares placed on <= N+3 servers (several per server), subsets deleted / corrupted (block data, version "
-        "field, truncation, hash trees, UEB) / failing on the nth read, late and lost DYHB answers, schedules by seed; "
+        "field, truncation, hash trees, UEB) / failing on the nth read, DYHB answers that are late, lost, or arrive only after the finder's "
+        "OVERDUE timer has fired (grid time warp), schedules by seed; "
         "non-trivial = at least one share bad or one fault planned")
 META = {
     "title": "Immutable availability with k good shares",
@@ -588,7 +589,7 @@ def gen_grid_case(r):
     k, n = r.choice([(1, 1), (1, 3), (2, 3), (2, 4), (3, 5), (3, 6), (2, 6)])
     servers = r.choice([max(1, n - 2), n, n + 1, n + 3])
     seg = r.choice([k * 16, 64, 96, 4096])
-    size = r.choice([57, seg, seg + 1, 2 * seg + 5, 3 * seg, 250])
+    size = max(56, r.choice([57, seg, seg + 1, 2 * seg + 5, 3 * seg, 250]))      # > 55 bytes: not a literal file
     # placement: instance list of (shnum, server); every share number once, some twice, several per server
     place = []
     crowd = r.random() < 0.4
@@ -621,6 +622,8 @@ def gen_grid_case(r):
             sfates[sv] = "dyhb-late"
         elif x < 0.18:
             sfates[sv] = "dyhb-lost"
+        elif x < 0.30:
+            sfates[sv] = "dyhb-after-overdue"      # answers, but only after the finder's OVERDUE timer fired
     return {"k": k, "n": n, "servers": servers, "segsize": seg, "size": size, "place": place, "fates": fates,
             "server_fates": {str(a): b for a, b in sfates.items()}, "nth": r.randrange(0, 5), "seed": r.getrandbits(30),
             "fifo": r.choice(["server", "server", "none"])}
@@ -648,7 +651,7 @@ def run_c03_grid_case(case):
     from props.segq_common import parse_share
     data = bytes((13 * i + case["size"] + (i >> 4)) & 0xFF for i in range(case["size"]))
     with G.Grid(num_servers=max(case["servers"], case["n"]), k=case["k"], n=case["n"], happy=1, max_segment_size=case["segsize"],
-                seed=case["seed"], fifo=case["fifo"], timeout=case.get("timeout", 10)) as g:
+                seed=case["seed"], fifo=case["fifo"], timeout=case.get("timeout", 15)) as g:
         cap = g.run(g.upload(data, convergence=b"c03"))
         # ---- placement: collect the N share files, then put copies where the case wants them
         originals = {}
@@ -698,15 +701,38 @@ def run_c03_grid_case(case):
                 plan.append({"server": sv, "method": "read", "shnum": shnum, "nth": case["nth"], "count": 1, "action": "corrupt", "how": "flip", "offset": 40 + case["nth"]})
             elif fate == "late":
                 plan.append({"server": sv, "method": "read", "shnum": shnum, "nth": 0, "count": 2, "action": "delay"})
+        very_late = []
         for sv, sf in case["server_fates"].items():
+            if sf == "dyhb-after-overdue":
+                very_late.append(int(sv))
+                continue
             act = {"dyhb-error": "error", "dyhb-late": "delay", "dyhb-lost": "drop"}[sf]
             plan.append({"server": int(sv), "method": "get_buckets", "nth": 0, "count": None, "action": act})
+
+        def with_late_servers(start):
+            # the servers in very_late hold their answers back for 30 s of (warped) time: the finder's
+            # OVERDUE_TIMEOUT (10 s) fires first, then the servers answer everything they were asked
+            from foolscap.api import eventually
+            from twisted.internet import reactor
+
+            def go():
+                for sv in very_late:
+                    g.hang_server(sv)
+                if very_late:
+                    # created from an eventual-send so that the grid treats it as a timer of this run
+                    eventually(lambda: reactor.callLater(30.0, lambda: [g.unhang_server(sv) for sv in very_late]))
+                return start()
+            return go
         g.set_faults(plan)
-        out = g.run(g.download(cap), outcome=True)
+        out = g.run(with_late_servers(lambda: g.download(cap)), outcome=True)
+        for sv in very_late:
+            g.unhang_server(sv)
         # a second read on a fresh node with another schedule
         g.sched.reseed(case["seed"] + 1)
         g.set_faults(plan)
-        out2 = g.run(g.download_range(cap, 1, case["size"]), outcome=True)
+        out2 = g.run(with_late_servers(lambda: g.download_range(cap, 1, case["size"])), outcome=True)
+        for sv in very_late:
+            g.unhang_server(sv)
     return data, out, out2
 
 
@@ -719,46 +745,64 @@ def _share_hash_offset(p):
     return struct.unpack(">Q", data[0x34:0x3c])[0]
 
 
+def judge_c03_grid_case(ctx, case, data, out, out2):
+    cls = classify(case)
+    good = set(shnum for (shnum, sv), c in zip(case["place"], cls) if c == "good")
+    usable = set(shnum for (shnum, sv), c in zip(case["place"], cls) if c in ("good", "maybe"))
+    lost = any(v == "dyhb-lost" for v in case["server_fates"].values())
+    k = case["k"]
+    expect = "ok" if len(good) >= k else ("error" if len(usable) < k else "either")
+    for which, o, want in (("read", out, data), ("second read", out2, data[1:])):
+        st = o.status
+        ctx.count("grid-outcome:%s:%s" % (expect, st if st != "error" else o.error))
+        if lost:
+            ctx.count("grid-lost-dyhb(overdue-timer):%s:%s" % (expect, st if st != "error" else o.error))
+        if any(v == "dyhb-after-overdue" for v in case["server_fates"].values()):
+            ctx.count("grid-answer-after-overdue-timer:%s:%s" % (expect, st if st != "error" else o.error))
+        if st in ("hung", "timeout"):
+            if lost and expect != "ok" and st == "hung":
+                continue      # a server that never answers its DYHB: outside the statement when shares are short
+            ctx.oracle_fail("read-never-finished", "%s with %d good / %d usable share numbers (k=%d) is %s" % (which, len(good), len(usable), k, st), case=case,
+                            expected=expect, observed=st)
+            continue
+        if st == "ok":
+            if o.value != want:
+                ctx.oracle_fail("read-returned-wrong-data", "%s returned %d bytes that differ from the uploaded data" % (which, len(o.value)), case=case,
+                                expected=want.hex()[:200], observed=o.value.hex()[:200])
+            elif expect == "error":
+                ctx.oracle_fail("data-from-fewer-than-k-good-shares", "%s succeeded although only %d share numbers are usable (k=%d)" % (which, len(usable), k), case=case)
+        else:
+            if expect == "ok":
+                ctx.oracle_fail("k-good-shares-but-read-failed", "%s failed with %s although %d distinct good share numbers sit on answering servers (k=%d)" % (
+                    which, o.error, len(good), k), case=case, expected="data", observed=str(o.failure.value)[:300] if o.failure else o.error)
+            elif o.error not in ("NotEnoughSharesError", "NoSharesError"):
+                ctx.oracle_fail("wrong-error-class-for-missing-shares", "%s failed with %s instead of NotEnoughSharesError/NoSharesError" % (which, o.error), case=case,
+                                observed=str(o.failure.value)[:300] if o.failure else o.error)
+    return cls, expect
+
+
 def grid_cases(ctx):
     ctx.correspondence("grid-downloads-vs-rule")
+    import glob
+    import json
+    import os
+    from core import env
+    for path in sorted(glob.glob(os.path.join(env.CORPUS, "C03", "*.json"))):
+        case = json.load(open(path))["case"]
+        data, out, out2 = run_c03_grid_case(case)
+        cls, expect = judge_c03_grid_case(ctx, case, data, out, out2)
+        ctx.case((os.path.basename(path), out.status, out2.status), kind="corpus")
     n = ctx.n(110, 1100)
     for i in range(n):
         r = ctx.rng("grid", i)
         case = gen_grid_case(r)
-        cls = classify(case)
-        good = set(shnum for (shnum, sv), c in zip(case["place"], cls) if c == "good")
-        usable = set(shnum for (shnum, sv), c in zip(case["place"], cls) if c in ("good", "maybe"))
-        lost = any(v == "dyhb-lost" for v in case["server_fates"].values())
         try:
             data, out, out2 = run_c03_grid_case(case)
         except Exception as e:
             ctx.mismatch("grid-harness-error", "grid case could not be set up: %s: %s" % (type(e).__name__, e), case=case, correspondence="grid-downloads-vs-rule")
             continue
-        k = case["k"]
-        expect = "ok" if len(good) >= k else ("error" if len(usable) < k else "either")
+        cls, expect = judge_c03_grid_case(ctx, case, data, out, out2)
         damaged = any(c != "good" for c in cls) or bool(case["server_fates"])
-        for which, o, want in (("read", out, data), ("second read", out2, data[1:])):
-            st = o.status
-            ctx.count("grid-outcome:%s:%s" % (expect, st if st != "error" else o.error))
-            if st in ("hung", "timeout"):
-                if lost and expect != "ok" and st == "hung":
-                    continue      # a server that never answers its DYHB: outside the statement when shares are short
-                ctx.oracle_fail("read-never-finished", "%s with %d good / %d usable share numbers (k=%d) is %s" % (which, len(good), len(usable), k, st), case=case,
-                                expected=expect, observed=st)
-                continue
-            if st == "ok":
-                if o.value != want:
-                    ctx.oracle_fail("read-returned-wrong-data", "%s returned %d bytes that differ from the uploaded data" % (which, len(o.value)), case=case,
-                                    expected=want.hex()[:200], observed=o.value.hex()[:200])
-                elif expect == "error":
-                    ctx.oracle_fail("data-from-fewer-than-k-good-shares", "%s succeeded although only %d share numbers are usable (k=%d)" % (which, len(usable), k), case=case)
-            else:
-                if expect == "ok":
-                    ctx.oracle_fail("k-good-shares-but-read-failed", "%s failed with %s although %d distinct good share numbers sit on answering servers (k=%d)" % (
-                        which, o.error, len(good), k), case=case, expected="data", observed=str(o.failure.value)[:300] if o.failure else o.error)
-                elif o.error not in ("NotEnoughSharesError", "NoSharesError"):
-                    ctx.oracle_fail("wrong-error-class-for-missing-shares", "%s failed with %s instead of NotEnoughSharesError/NoSharesError" % (which, o.error), case=case,
-                                    observed=str(o.failure.value)[:300] if o.failure else o.error)
         ctx.case((case["seed"], tuple(case["fates"])) if damaged else None, kind="grid:expect-%s" % expect)
         if i < 3:
             ctx.sample({"case": case, "classes": cls, "outcome": [out.status, out.error]})
